@@ -96,22 +96,24 @@ def run_property(prop, tier, scratch, configs=None, repo=None, quiet=False):
         from . import probes
         res, st = probes.run(pname, prop, tier, scratch, ctxs[configs[0]], repo)
         stats[pname] = st
+        pf = pdef.get("probe_filter")
         for f in res.findings:
+            if pf is not None and not pf(f.key):
+                continue
             if f.key not in merged:
                 merged[f.key] = f
                 f.configs.append("probe")
     return list(merged.values()), stats, time.time() - t0, ctxs
 
 
-_RULE_CACHE = {}
-
-
 def ctx_cache_run(ctx, rname, rdef, prop):
-    key = (id(ctx), rname)
-    r = _RULE_CACHE.get(key)
+    """rule results are cached on the context object itself (a worker process analyses several trees one after the other: a cache keyed by id()
+    could hand the result for a collected context to a new one that happens to get the same address)"""
+    cache = ctx.__dict__.setdefault("_rule_results", {})
+    r = cache.get(rname)
     if r is None:
         r = rdef["fn"](ctx)
-        _RULE_CACHE[key] = r
+        cache[rname] = r
     return r
 
 
